@@ -13,6 +13,7 @@ From Coq Require Import ZArith List Bool.
 From QF Require Import Base.Res Base.Bytes Codec.TagValue Codec.TagValueProofs Codec.FieldMap Codec.Build Codec.Parse
   Codec.ParseProofs Codec.Scan Codec.ScanProofs.
 From QF Require Import Spec.FixStd Codec.Group Codec.GroupProofs Codec.GroupShipped Codec.GroupMulti Codec.ParseGroupProofs.
+From QF Require Import Codec.ParseLengthGroups Codec.ParseShipped Dict.Xml Dict.Build Gen.Dicts.Index.
 Import ListNotations.
 Open Scope Z_scope.
 
@@ -49,7 +50,8 @@ Theorem c11_leading_order : forall fs td ad, Forall plain_field fs -> c11_lead_o
 Proof. exact parse_rejects_wrong_leading_order. Qed.
 
 (* a framed message whose BodyLength field is not the decimal byte count of its content is rejected
-   (messages carrying XMLData included: the check is unconditional) *)
+   (messages carrying XMLData included: the check is unconditional).  Here: no group of the dictionary starts in the
+   message; with groups starting (any, well-formed or not): c11_length_any_groups and its corollaries at the end. *)
 Theorem c11_length : forall fs td ad f1 v9 rest, c11_framed fs = true -> ad_no_group_start ad fs ->
   fs = f1 :: (9, v9) :: rest ->
   c11_declared v9 <> Some (c11_body_length fs) -> exists e, do_parsing (ser fs) td ad = Err e.
@@ -133,3 +135,151 @@ Example c11_ex_groups_parse :
     rmap fst (rg_read rg_ex2_tmpl (map tv_pair (skipn 16 (m_fields m)))) = Ok rg_ex2_group /\
     rmap fst (rg_read rg_ex_tmpl (map tv_pair (skipn 5 (m_fields m)))) = Ok rg_ex_group.
 Proof. exact c11g_ex_parse. Qed.
+
+(* ---- "a message whose BodyLength disagrees with its content is rejected", with repeating groups starting ---- *)
+
+(* FULL STATEMENT: forall fs td ad, c11_framed fs -> the 9 field is not the decimal byte count -> rejected.
+   c11_length above proves it when no group of the dictionary starts in the message.  Here: ANY framed message in which
+   MsgType (35) occurs once - whatever groups start in it, well-formed for the dictionary or not (count mismatch, members
+   out of order, a group cut short by the trailer, ...) - for any transport dictionary and
+     no application dictionary, or
+     an application dictionary that does not know the MsgType (ad_defs_of = []: nothing is asked), or
+     an application dictionary whose definition of the MsgType lists no header / trailer tag among the members of its
+     groups (dict_body_only; checkable: c11_dict_body_only_check; true of every shipped dictionary: c11_shipped_body_only).
+   ad_defs_of ad mt = the message definition the parser looks at (Messages[mt].Fields), [] if there is none.
+   STILL MISSING for the full statement: a second MsgType field in the message (the parser then switches to the other
+   message definition in mid-message), and dictionaries that list a header / trailer tag as a group member. *)
+Theorem c11_length_any_groups : forall fs td ad mt v8 v9 mid,
+  c11_framed fs = true -> fs = (8, v8) :: (9, v9) :: (35, mt) :: mid -> ~ In TAG_MSG_TYPE (map fst mid) ->
+  dict_body_only td (ad_defs_of ad mt) ->
+  c11_declared v9 <> Some (c11_body_length fs) -> exists e, do_parsing (ser fs) td ad = Err e.
+Proof. exact parse_rejects_wrong_body_length_any. Qed.
+
+(* the MsgType is in the dictionary (the hypotheses of c11_parse_refines_scan, the scan's result not needed) *)
+Theorem c11_length_dict : forall fs td d mt defs v8 v9 mid,
+  c11_framed fs = true -> fs = (8, v8) :: (9, v9) :: (35, mt) :: mid -> ~ In TAG_MSG_TYPE (map fst mid) ->
+  ad_find mt d = Some defs -> dict_body_only td defs ->
+  c11_declared v9 <> Some (c11_body_length fs) -> exists e, do_parsing (ser fs) td (Some d) = Err e.
+Proof. exact parse_rejects_wrong_body_length_dict. Qed.
+
+(* the MsgType is not in the dictionary: any dictionary *)
+Theorem c11_length_unknown_msgtype : forall fs td d mt v8 v9 mid,
+  c11_framed fs = true -> fs = (8, v8) :: (9, v9) :: (35, mt) :: mid -> ~ In TAG_MSG_TYPE (map fst mid) ->
+  ad_find mt d = None ->
+  c11_declared v9 <> Some (c11_body_length fs) -> exists e, do_parsing (ser fs) td (Some d) = Err e.
+Proof. exact parse_rejects_wrong_body_length_unknown. Qed.
+
+(* the messages of c11_fidelity_groups (plain fields and groups well-formed for the dictionary), any 9 field *)
+Theorem c11_length_groups : forall td d mt defs v8 v9 v10 items fs,
+  fs = (8, v8) :: (9, v9) :: (35, mt) :: c11g_flat (items ++ [CFld (10, v10)]) ->
+  c11_framed fs = true ->
+  ~ In TAG_MSG_TYPE (map fst (c11g_flat items)) ->
+  ad_find mt d = Some defs -> dict_body_only td defs ->
+  c11_declared v9 <> Some (c11_body_length fs) -> exists e, do_parsing (ser fs) td (Some d) = Err e.
+Proof. exact parse_rejects_wrong_body_length_groups. Qed.
+
+(* why: the field-level scan of a field list that ends with CheckSum always ends (so c11_parse_refines_scan's simulation
+   covers every framed message), and every framed message reaches the BodyLength comparison with the wire's header *)
+Theorem c11_scan_framed_total : forall xh xt m rest, rest <> [] -> fst (last rest (0, [])) = RG_CHECKSUM ->
+  forall mode i body, exists res, rg_scan xh xt (Some m) mode i rest body = Ok res.
+Proof. exact rg_scan_framed_ok. Qed.
+Theorem c11_framed_reaches_length_check : forall fs td ad mt v8 v9 mid,
+  c11_framed fs = true -> fs = (8, v8) :: (9, v9) :: (35, mt) :: mid -> ~ In TAG_MSG_TYPE (map fst mid) ->
+  dict_body_only td (ad_defs_of ad mt) ->
+  exists m, c11_before_check td fs m /\
+    do_parsing (ser fs) td ad =
+      match fm_get_int (m_header m) TAG_BODY_LENGTH with
+      | Ok bl => if c11_body_length fs =? bl then Ok m else Err E_BODY_LENGTH
+      | Err _ => Err E_BODY_LENGTH_FIELD
+      | Panic => Panic
+      | OutOfFuel => OutOfFuel
+      end.
+Proof. exact parse_framed_any. Qed.
+
+(* non-vacuity: the two-group message of c11_ex_groups_hyps announcing one byte too few; and a message in which
+   NoPartyIDs (453) announces 2 entries and one follows (ill-formed for the dictionary), announcing 7 bytes too many *)
+Example c11_ex_length_groups_hyps :
+  c11_framed (c11g_ex_fs c11g_ex_bad_v9) = true /\
+  ~ In TAG_MSG_TYPE (map fst (c11g_flat c11g_ex_items)) /\
+  ad_find [68] c11g_ex_dict = Some c11g_ex_defs /\ dict_body_only None c11g_ex_defs /\
+  c11_declared c11g_ex_bad_v9 <> Some (c11_body_length (c11g_ex_fs c11g_ex_bad_v9)).
+Proof. exact c11g_ex_bad_hyps. Qed.
+Example c11_ex_length_ill_formed_hyps :
+  c11_framed (c11g_ex_ill_fs c11g_ex_ill_v9) = true /\
+  ~ In TAG_MSG_TYPE (map fst c11g_ex_ill_mid) /\
+  dict_body_only None (ad_defs_of (Some c11g_ex_dict) [68]) /\
+  c11_declared c11g_ex_ill_v9 <> Some (c11_body_length (c11g_ex_ill_fs c11g_ex_ill_v9)).
+Proof. exact c11g_ex_ill_hyps. Qed.
+Example c11_ex_length_ill_formed_rejected :
+  do_parsing (ser (c11g_ex_ill_fs c11g_ex_ill_v9)) None (Some c11g_ex_dict) = Err E_BODY_LENGTH.
+Proof. exact c11g_ex_ill_rejected. Qed.
+
+(* ---- dict_body_only on the shipped dictionaries ---- *)
+
+(* The translation from the built dictionary (Dict/Build.v on the generated terms Gen/Dicts/<NAME>.v) to the parser's
+   views: pd_app_dict d = Messages (per MsgType the map Fields as a list, member lists as FieldDef.Fields slices),
+   pd_transport d = (keys of Header.Fields, keys of Trailer.Fields).  The views answer the parser's questions as the Go
+   maps do: *)
+Theorem c11_view_messages : forall mt d,
+  ad_find mt (pd_app_dict d) = option_map pd_defs_of_dmd (dict_bget mt (dd_messages d)).
+Proof. exact pd_ad_find. Qed.
+Theorem c11_view_message_fields : forall t m,
+  gd_find t (pd_defs_of_dmd m) =
+  option_map (fun f => GDef t (map gdef_of_dfd (dfd_fields f))) (dict_zget t (dmd_fields m)).
+Proof. exact pd_gd_find. Qed.
+Theorem c11_view_group_member : forall t fs,
+  is_group_member t (map gdef_of_dfd fs) = existsb (fun f => dfd_tag f =? t) fs.
+Proof. exact pd_is_group_member. Qed.
+Theorem c11_view_header_field : forall t d,
+  is_header_field t (Some (pd_transport d)) = tag_is_header t || pd_has_key t (dd_header d).
+Proof. exact pd_is_header_field. Qed.
+Theorem c11_view_trailer_field : forall t d,
+  is_trailer_field t (Some (pd_transport d)) = tag_is_trailer t || pd_has_key t (dd_trailer d).
+Proof. exact pd_is_trailer_field. Qed.
+
+(* Every message definition of every shipped specification (used as application dictionary) satisfies dict_body_only,
+   with no transport dictionary (built-in Tag.IsHeader / Tag.IsTrailer lists alone) and with the Header / Trailer of
+   any shipped specification as transport dictionary (pd_shipped_td) - in particular FIX40..FIX44 with themselves and
+   FIX50 / FIX50SP1 / FIX50SP2 with FIXT11.  Closed computation (vm_compute) of dict_body_onlyb: 575 message definitions,
+   2129 top-level group definitions, 10 transport choices.  No shipped definition violates it. *)
+Theorem c11_shipped_body_only : forall name doc, In (name, doc) gen_dicts_shipped ->
+  exists d, dict_build doc = Ok d /\
+    forall td, pd_shipped_td td ->
+    forall mt defs, ad_find mt (pd_app_dict d) = Some defs -> dict_body_only td defs.
+Proof. exact pd_shipped_all. Qed.
+Theorem c11_shipped_counts :
+  Z.of_nat pd_shipped_message_count = 575 /\ Z.of_nat pd_shipped_group_count = 2129 /\
+  Z.of_nat (length pd_shipped_tds) = 10 /\ 0 < Z.of_nat pd_shipped_member_count.
+Proof. exact pd_shipped_counts. Qed.
+
+(* hence, with the shipped dictionaries, nothing is asked of the dictionary: a framed message (MsgType once) whose
+   BodyLength disagrees with its content is rejected, whatever its MsgType and whatever groups start in it *)
+Theorem c11_length_shipped : forall name doc d td fs mt v8 v9 mid,
+  In (name, doc) gen_dicts_shipped -> dict_build doc = Ok d -> pd_shipped_td td ->
+  c11_framed fs = true -> fs = (8, v8) :: (9, v9) :: (35, mt) :: mid -> ~ In TAG_MSG_TYPE (map fst mid) ->
+  c11_declared v9 <> Some (c11_body_length fs) -> exists e, do_parsing (ser fs) td (Some (pd_app_dict d)) = Err e.
+Proof. exact parse_rejects_wrong_body_length_shipped. Qed.
+
+(* and c11_parse_refines_scan holds for them without its dictionary hypothesis *)
+Theorem c11_parse_refines_scan_shipped : forall name doc d td fs mt defs v8 v9 mid res,
+  In (name, doc) gen_dicts_shipped -> dict_build doc = Ok d -> pd_shipped_td td ->
+  c11_wire_ok fs = true -> fs = (8, v8) :: (9, v9) :: (35, mt) :: mid -> ~ In TAG_MSG_TYPE (map fst mid) ->
+  ad_find mt (pd_app_dict d) = Some defs ->
+  rg_scan (td_xh td) (td_xt td) (Some (map gdef_rg defs)) RgTop 3%nat mid [] = Ok res ->
+  exists m, do_parsing (ser fs) td (Some (pd_app_dict d)) = Ok m /\
+    m_raw m = Some (ser fs) /\
+    m_fields m = map init_of fs ++ repeat tv_zero (count_byte SOH (ser fs) - length fs) /\
+    m_header m = fold_left (addH td) fs hdr0 /\
+    m_trailer m = fold_left (addT td) fs trl0 /\
+    m_body m = body_of fs res.
+Proof. exact parse_refines_scan_shipped. Qed.
+
+(* non-vacuity: FIX44 as application and transport dictionary; NewOrderSingle (35=D) declares NoPartyIDs (453) a group
+   with members 448, 447, 452, 802; Header.Fields has 27 keys, Trailer.Fields 3 *)
+Example c11_ex_shipped_fix44 :
+  exists d defs g, In ([70; 73; 88; 52; 52], FIX44.gen_dict_FIX44) gen_dicts_shipped /\ dict_build FIX44.gen_dict_FIX44 = Ok d /\
+    pd_shipped_td (Some (pd_transport d)) /\
+    ad_find [68] (pd_app_dict d) = Some defs /\ gd_find 453 defs = Some g /\
+    map gdef_tag (gdef_members g) = [448; 447; 452; 802] /\
+    length (fst (pd_transport d)) = 27%nat /\ length (snd (pd_transport d)) = 3%nat.
+Proof. exact pd_ex_fix44. Qed.
